@@ -22,5 +22,6 @@ Definition entry (sel : Z) (toks : list Z) : list Z :=
   | 107 => match run_dec dLawIn toks with Some l => eBool (law_guarantee l) | None => bad_input end
   | 108 => match run_dec dLawIn toks with Some l => eBool (law_gang_cycle l) | None => bad_input end
   | 109 => match run_dec dLawIn toks with Some l => eBool (law_drf_set l) | None => bad_input end
+  | 110 => match run_dec dLawIn toks with Some l => eBool (law_decided_tier l) | None => bad_input end
   | _ => bad_input
   end.
